@@ -23,10 +23,11 @@ ASSUMPTIONS = [
     'reference interpreter as in C01',
 ]
 N = {'quick': 600, 'thorough': 4000}
-SHAPES = ['direct', 'map_above', 'rev_slice', 'batch2', 'chain', 'items_below', 'items_map', 'copied',
+SHAPES = ['direct', 'map_above', 'rev_slice', 'batch2', 'chain', 'items_below', 'items_map', 'concat_below', 'copied',
           'copied_frozen', 'warn', 'list_zip_warn']
-RAISED = ['FilterException', 'VErrA', 'VErrB', 'VErrC', 'ValueError', 'IndexError']
-SPECS = [None, 'VErrA', ['VErrA', 'VErrC'], 'Exception', 'ValueError', 'LookupError', ['KeyError', 'VErrC'], []]
+RAISED = ['FilterException', 'VErrA', 'VErrB', 'VErrC', 'ValueError', 'IndexError', 'VBase']
+SPECS = [None, 'VErrA', ['VErrA', 'VErrC'], 'Exception', 'ValueError', 'LookupError', ['KeyError', 'VErrC'], [],
+         ['VBase', 'VErrA']]
 
 
 def plan(tier):
@@ -54,6 +55,11 @@ def make(kind, n, fail, shape, spec):
         if kind != 'dict':
             return None
         node = {'op': 'items', 'in': node}
+    elif shape == 'concat_below':
+        if kind != 'dict':
+            return None
+        node = {'op': 'concat', 'how': 'method',
+                'ins': [node, {'op': 'dict', 'id': 6, 'keys': ['y', 'z'], 'mode': 'pickle'}]}
     elif shape == 'items_map':
         if kind != 'dict':
             return None
